@@ -33,9 +33,12 @@ ASSUMPTIONS = ["validator functions are pure", "membership in 'allowed' means eq
 ALLOWED = {'none': None, 's12': {1, 2}, 'empty': set(), 'l1a': [1, 'a'],
            # thorough only:
            't1232': (1, 2, 3, 2), 'str': 'abc', 'fs': frozenset({None, 0}), 'd': {'x': 1, 2: 2}}
-CHECK = {'none': None, 'isint': lambda v: isinstance(v, int), 'truthy': bool,
-         'never': lambda v: False,
+CHECK = {'none': None, 'isint': lambda v: isinstance(v, int),
+         # "returns a true value": the results need not be bools
+         'truthy': lambda v: v,                                 # the value itself (0, '', None, () ... reject)
+         'never': lambda v: 0 if isinstance(v, str) else None,  # falsy, but never the False singleton
          # thorough only:
+         'false': lambda v: False, 'bool': bool,
          'notnone': lambda v: v is not None, 'hashable': lambda v: not isinstance(v, list),
          'returns0': lambda v: 0 if v == 2 else 'yes'}
 
